@@ -396,7 +396,10 @@ func (c *conn) runStatement(ctx context.Context, st any, q string) (*relation, e
 		return nil, pgErr("25P02", "current transaction is aborted, commands ignored until end of transaction block")
 	}
 	top := c.st.cur.top
+	// READ COMMITTED: one snapshot per statement, kept while the statement waits for locks
+	stmt := &stmtState{snap: db.commitSeq}
 	for {
+		stmt.seqIdx = 0
 		if err := ctx.Err(); err != nil {
 			if implicit {
 				c.st.cur = nil
@@ -407,7 +410,7 @@ func (c *conn) runStatement(ctx context.Context, st any, q string) (*relation, e
 			return nil, err
 		}
 		sub := db.newXact(c.st.cur, c.st)
-		ec := &execCtx{db: db, x: sub, conn: c.st, ctes: map[string]*relation{}, winMu: map[*Func]map[string]Value{}}
+		ec := &execCtx{db: db, x: sub, conn: c.st, ctes: map[string]*relation{}, winMu: map[*Func]map[string]Value{}, stmt: stmt}
 		var rel *relation
 		var err error
 		if m, ok := st.(*Misc); ok && m.Kind == "create_trigger" {
